@@ -349,4 +349,122 @@ theorem writePropsArrays_some (s : St) (r : StoreRef) (grp : String) (ps : Props
               simp [dictDelItem, hk, pure, Except.pure]
         · simp [pvShape, pvDtype, issubdtypeObject, h2, raiseValueError, bind, Except.bind, pure, Except.pure, throw, throwThe, MonadExceptOf.throw]
 
+/-! ## `write_arrays` -/
+
+theorem hasGeff_ensureGroup (s : St) : hasGeff (ensureGroup s []) = hasGeff s := by
+  unfold hasGeff
+  cases h : get s [] with
+  | none => rw [ensureGroup_of_none s [] h, get_set_same]; rfl
+  | some e => rw [ensureGroup_of_some s [] e h, h]
+
+def axSpec (ax : String) (nps : Option Props) : Outcome (ForInStep (Option Props)) :=
+  .ok (.yield (nps.map (fun ps => axStep ps ax)))
+
+theorem axLoop_spec (body : String → Option Props → Outcome (ForInStep (Option Props)))
+    (hstep : ∀ ax nps, body ax nps = axSpec ax nps) (names : List String) : ∀ nps : Option Props,
+    forIn names nps body = .ok (nps.map (fun ps => names.foldl axStep ps)) := by
+  induction names with
+  | nil => intro nps; cases nps <;> simp [pure, Except.pure]
+  | cons a as ih =>
+    intro nps
+    rw [List.forIn_cons, hstep]
+    simp only [axSpec, bind, Except.bind]
+    rw [ih]
+    cases nps <;> simp
+
+theorem writePropsArrays_NODES (s : St) (r : StoreRef) (ps : Props) (f : Fmt) :
+    Gen.BaseWrite.writePropsArrays s r NODES ps none f = writePropsArraysSpec s NODES ps none :=
+  writePropsArrays_none s r NODES ps f (Or.inl rfl)
+theorem writePropsArrays_EDGES (s : St) (r : StoreRef) (ps : Props) (f : Fmt) :
+    Gen.BaseWrite.writePropsArrays s r EDGES ps none f = writePropsArraysSpec s EDGES ps none :=
+  writePropsArrays_none s r EDGES ps f (Or.inr rfl)
+
+theorem ensureGroup_idem (s : St) (p : Path) : ensureGroup (ensureGroup s p) p = ensureGroup s p := by
+  cases h : get s p with
+  | none =>
+    rw [ensureGroup_of_none s p h]
+    exact ensureGroup_of_some _ _ _ (get_set_same _ _ _)
+  | some e => rw [ensureGroup_of_some s p e h, ensureGroup_of_some s p e h]
+
+theorem writeIdArrays_root (s : St) (n e : NdArr) :
+    Geff.WR.writeIdArrays (ensureGroup s []) n e = Geff.WR.writeIdArrays s n e := by
+  unfold Geff.WR.writeIdArrays; rw [ensureGroup_idem]
+
+/-- closes "generated tail of `write_arrays` on the node properties `nps'` = the model's `writeTail`" -/
+local macro "tail_tac" nps:ident eps:ident hax:ident : tactic => `(tactic| (
+  (cases $nps:ident <;> cases $eps:ident <;>
+    simp only [writePropsArrays_NODES, writePropsArrays_EDGES, writePropsArraysSpec, writePropsOpt, propsAfterUnsquish,
+      addOrUpdatePropsMetadata, computeAndAddAxisMinMax, metadataWrite, pure_bind, bind, Except.bind, pure, Except.pure,
+      Except.map, checkAxes, if_true, reduceCtorEq, if_false, tryCatch, tryCatchThe, MonadExceptOf.tryCatch, Except.tryCatch,
+      raiseValueError, throw, throwThe, MonadExceptOf.throw, StateT.pure])
+  all_goals simp only [show ¬ ("edge" = "node") from by decide, if_false, $hax:ident]
+  all_goals (repeat' split)
+  all_goals (try simp_all)
+  all_goals (try subst_vars)
+  all_goals (try rfl)
+  all_goals (repeat' split)
+  all_goals (try simp_all)))
+
+theorem writeArrays_novalidate (validate : St → Outcome Unit) (s0 : St) (r : StoreRef) (g : InMem) (md : CallerMeta) (f : Fmt) (ow : Bool)
+    (hg : hasGeff s0 = false) :
+  (Gen.BaseWrite.writeArrays validate s0 r g.nodeIds g.nodeProps g.edgeIds g.edgeProps md none none f false ow).map (·.1)
+    = writeCore vlenCodec s0 g md := by
+  unfold Gen.BaseWrite.writeArrays writeCore
+  simp only [checkForGeff, pure_bind, hg, hasGeff_ensureGroup, Bool.false_eq_true, if_false, writeIdArrays_eq, writeIdArrays_root]
+  cases hid : Geff.WR.writeIdArrays s0 g.nodeIds g.edgeIds with
+  | error e => simp [bind, Except.bind, Except.map]
+  | ok s1 =>
+    simp only [bind, Except.bind, lenArr]
+    cases hlen : g.nodeIds.len? with
+    | none => simp [throw, throwThe, MonadExceptOf.throw, Except.map]
+    | some n =>
+      simp only [pure, Except.pure, Option.isNone_some, Bool.false_eq_true, if_false]
+      -- the node properties that get written
+      obtain ⟨nps, hnps, hgoal⟩ : ∃ nps, nodePropsToWrite g md = nps ∧ nps = nps := ⟨_, rfl, rfl⟩
+      unfold writeTail
+      by_cases hn : n = 0
+      · subst hn
+        cases hax : md.axes with
+        | none =>
+          have h1 : nodePropsToWrite g md = g.nodeProps := by
+            unfold nodePropsToWrite; rw [hlen, hax]; cases g.nodeProps <;> rfl
+          simp only [beq_self_eq_true, if_true, h1]
+          generalize g.nodeProps = nps'
+          generalize g.edgeProps = eps'
+          tail_tac nps' eps' hax
+        | some names =>
+          have h1 : nodePropsToWrite g md = g.nodeProps.map (fun ps => names.foldl axStep ps) := by
+            unfold nodePropsToWrite; rw [hlen, hax]; rfl
+          simp only [beq_self_eq_true, if_true, h1]
+          rw [axLoop_spec _ ?hstep names g.nodeProps]
+          case hstep =>
+            intro ax nps0
+            cases nps0 with
+            | none => rfl
+            | some ps0 =>
+              have hdc : dictContains ps0 ax = ps0.any (fun kv => kv.1 = ax) := rfl
+              simp only [axSpec, axStep, hdc, dictSetItem, axisName, npEmptyZero, emptyF64, Option.map_some, dictSet, pure, Except.pure]
+              cases hb : (ps0.any fun kv => kv.1 = ax) <;> simp_all
+              refine ite_eq_right_iff.mpr (fun hc => ?_)
+              exfalso
+              rw [List.any_eq_true] at hc
+              obtain ⟨kv, hm, hk⟩ := hc
+              exact hb kv.1 kv.2 hm (of_decide_eq_true hk)
+          simp only []
+          generalize g.nodeProps.map (fun ps => names.foldl axStep ps) = nps'
+          generalize g.edgeProps = eps'
+          tail_tac nps' eps' hax
+      · have h1 : nodePropsToWrite g md = g.nodeProps := by
+          unfold nodePropsToWrite; rw [hlen]
+          cases n with
+          | zero => exact absurd rfl hn
+          | succ k => rfl
+        have hb : (n == 0) = false := by simpa using hn
+        simp only [hb, Bool.false_eq_true, if_false, h1]
+        generalize hax : md.axes = axs
+        generalize g.nodeProps = nps'
+        generalize g.edgeProps = eps'
+        tail_tac nps' eps' hax
+
+
 end GeffProofs.BaseWriteGen
